@@ -157,6 +157,16 @@ CHECKS["C11"] = dict(
     note="Dyadic parameters; gradients excluded (reported in optimizer coordinates); objective/constraint scalers are harness classes on ropt's public base classes.",
     design="4 (C11)")
 
+CHECKS["C09"] = dict(
+    text="FixedVars.tla: completion of free-variable requests against the authoritative vector `fixed`, changed only by the start vector "
+         "and by nested results; TLC checks that completion never touches masked-out entries for every mask x request script x nesting "
+         "x sampler assignment; each scenario runs on a real plan (scripted back-end, and the real SciPy plug-in under the scripted "
+         "client) started from explicit values with an injected design non-zero on all variables; Trace_C09 carries `fixed` through the "
+         "events and checks every evaluator row, reported vector, gradient entry and the vector lengths the back-end sees; recorded real "
+         "SLSQP/L-BFGS-B/Nelder-Mead/Powell/DE runs are validated on their rows.",
+    note="Three variables; the inner optimisation is a plan function moving the complementary variables.",
+    design="4 (C09)")
+
 NOT_APPLICABLE = {}
 
 def main():
